@@ -566,7 +566,7 @@ pub fn run() {
     for family in FAMILIES {
       let c = corpus(family, &tier);
       total_cases += c.total;
-      let stall = Duration::from_secs(if tier == "thorough" { 30 } else { 10 });
+      let stall = Duration::from_secs(if tier == "thorough" { 30 } else { 20 });
       let t0 = std::time::Instant::now();
       let (outcomes, done, machinery) = isolate::drive(exe, &["c12worker".to_string(), family.to_string(), tier.clone()], 16, c.total, stall, &format!("c12_{}_{}", pname, family));
       for m in machinery {
